@@ -53,6 +53,8 @@ inductive Cat where
   | B
   /-- leaf `ID_FUNCTION` / `ID_PREDICATE` / `ID_LOCAL` / `global_name` -/
   | FN | PN | LO | GN
+  /-- leaf `ID_FUNCTION` or `ID_PREDICATE`: the head of a call standing where `logic_or_setexpr` is accepted -/
+  | FP
   /-- `declaration` (NT_ARG_DECL), `arguments` (NT_ARGUMENTS), `no_declaration` -/
   | AD | ARGS | ND
 deriving Repr, DecidableEq
@@ -104,12 +106,19 @@ def shapeV : Tok → Option Shape
   | .NT_TUPLE_DECL => some (.all 2 .V)
   | _ => none
 
+/-- `logic_or_setexpr`: a `logic` or a `setexpr`. The two grammars share one node kind, `NT_FUNC_CALL`
+(`PREDICATE LS setexpr_enum RS` in `logic_unary`, `FUNCTION LS setexpr_enum RS` in `setexpr`): where either
+is accepted the head of a call is a predicate name or a term-function name. -/
+def shapeLS (id : Tok) : Option Shape :=
+  if id == .NT_FUNC_CALL then some (.headAll .FP 1 .S)
+  else match shapeL id with | some s => some s | none => shapeS id
+
 /-- the table: which shape a node with token `id` has when it stands for category `c` -/
 def shape (c : Cat) (id : Tok) : Option Shape :=
   match c with
   | .S => shapeS id
   | .L => shapeL id
-  | .LS => match shapeL id with | some s => some s | none => shapeS id
+  | .LS => shapeLS id
   | .V => shapeV id
   | .VP => if id == .NT_ENUM_DECL then some (.all 2 .V) else shapeV id
   | .B => if id == .ITERATE || id == .ASSIGN then some (.seq [.V, .S]) else shapeL id
@@ -117,11 +126,12 @@ def shape (c : Cat) (id : Tok) : Option Shape :=
   | .PN => if id == .ID_PREDICATE then some .leaf else none
   | .LO => if id == .ID_LOCAL then some .leaf else none
   | .GN => if id == .ID_GLOBAL || id == .ID_FUNCTION || id == .ID_PREDICATE then some .leaf else none
+  | .FP => if id == .ID_FUNCTION || id == .ID_PREDICATE then some .leaf else none
   | .AD => if id == .NT_ARG_DECL then some (.seq [.LO, .S]) else none
   | .ARGS => if id == .NT_ARGUMENTS then some (.all 1 .AD) else none
   | .ND =>
     if id == .NT_FUNC_DEFINITION then some (.seq [.ARGS, .LS])
-    else match shapeL id with | some s => some s | none => shapeS id
+    else shapeLS id
 
 mutual
 /-- the tree is a phrase of category `c` -/
